@@ -166,9 +166,20 @@ def main(argv=None):
                           f, indent=1, sort_keys=True, default=str)
         # confirm every new violation by re-executing its point (determinism / replayability)
         confirmed = []
-        for rank, key, what, point, count in sorted(new, key=lambda t: (t[0], t[1]))[:200]:
-            r2 = Result()
-            mod.replay(point, r2)
+        todo = sorted(new, key=lambda t: (t[0], t[1]))[:200]
+        # each confirmation runs in a fresh forked process: a violation may have corrupted process-wide state
+        replays = {}
+        if todo:
+            def _rep(unit, tier_):
+                r = Result()
+                mod.replay(unit[1], r)
+                r.notes = [unit[0]]
+                return r
+            for rank, key, what, point, count in todo:
+                one = common.run_units(_rep, [(key, point)], tier, jobs=1, fresh_process_per_unit=True)
+                replays[key] = one
+        for rank, key, what, point, count in todo:
+            r2 = replays[key]
             if key not in r2.violations:
                 raise HarnessError("violation %s did not reproduce from its replay point %r (got %r)"
                                    % (key, point, sorted(r2.violations)))
